@@ -141,7 +141,16 @@ class Simulation:
         if cached_array is not None:
             # A value marked for deletion was derived from a spiral default:
             # whatever is being computed from it must be discarded as well.
-            if Cache(variable_name, period) in self.invalidated_caches:
+            # (An eternal variable has one stored value, whatever the period it
+            # was marked or is read under.)
+            if any(
+                cache.variable == variable_name
+                and (
+                    cache.period == period
+                    or variable.definition_period == periods.DateUnit.ETERNITY
+                )
+                for cache in self.invalidated_caches
+            ):
                 for frame in self.tracer.stack:
                     self.invalidate_cache_entry(str(frame["name"]), frame["period"])
             return cached_array
